@@ -1,5 +1,6 @@
 import SSDriver.C13
 import SSDriver.C10
+import SSDriver.C01
 import SSDriver.C06
 import SSDriver.C07
 import SSDriver.C20
@@ -21,6 +22,7 @@ def dispatch (j : Json) : Except String String := do
   let p ← (← j.getObjVal? "p").getStr?
   match p with
   | "C13" => SS.Drv.C13.handle j
+  | "C01" => SS.Drv.C01.handle j
   | "C06" => SS.Drv.C06.handle j
   | "C07" => SS.Drv.C07.handle j
   | "C20" => SS.Drv.C20.handle j
